@@ -24,7 +24,7 @@ META = dict(
                "by differential testing on generated histories, not by a proof about Go source. Rotate's (cos, sin), path "
                "lengths/bounds, text bounds and image sizes are relational inputs taken from Go. Matrices are compared within "
                "an explicit rational slack because Go rounds to binary64 and the model is exact. Colour conversion "
-               "(rgbaColor), FitImage, patterns'/gradients' own views, NaN/Inf arguments and singular views are not covered.",
+               "(rgbaColor), patterns'/gradients' own views, NaN/Inf arguments and singular views are not covered.",
     harness=["c15"],
 )
 
@@ -152,5 +152,5 @@ def run(ctx):
         "all arguments dyadic (exact in binary64 and in Q); views kept regular (|det| >= 2^-10) and bounded (entries <= 2^10) by the generator",
         "checkDash/dashStart/dashCanonical are C05's model (Dash/DashPhase.v); the property oracle compares the dash offset handed to the renderer only together with a non-empty dash array",
         "segments that extend the previous one in the same direction are not generated (Path.LineTo/Close merge them by design; the model appends path commands verbatim)",
-        "colours are valid premultiplied RGBA (rgbaColor is the identity on them); FitImage and non-finite arguments are not exercised",
+        "colours are valid premultiplied RGBA (rgbaColor is the identity on them); non-finite arguments are not exercised",
         "Go's map iteration order in Fit is irrelevant as long as no transformed bounds is Empty (regular matrices)"])
